@@ -1570,6 +1570,12 @@ func hasLayerHMax(m *Model, f *ssa.Function, seen map[*ssa.Function]bool) bool {
 				if locOfSteps(steps) != igLayer+".H" {
 					return
 				}
+				// form B: the stored value is a local max-reduction over node heights (accumulated in a variable, possibly in
+				// a helper of the same package that returns it)
+				if isNodeHMaxReduction(x.Val, 0) {
+					found = true
+					return
+				}
 				call, ok := isMinMaxCall(x.Val)
 				if !ok {
 					return
@@ -1584,7 +1590,7 @@ func hasLayerHMax(m *Model, f *ssa.Function, seen map[*ssa.Function]bool) bool {
 							b2, s2 := fieldChain(fa2)
 							switch locOfSteps(s2) {
 							case igLayer + ".H":
-								if b2 == base {
+								if b2 == base || sameSSAExpr(b2, base, 0) {
 									hasOld = true
 								}
 							case igNode + ".H":
@@ -1610,6 +1616,96 @@ func hasLayerHMax(m *Model, f *ssa.Function, seen map[*ssa.Function]bool) bool {
 		}
 	})
 	return found
+}
+
+// isNodeHMaxReduction: v is a loop-carried maximum of Node.H values: a phi whose edges are constants, itself, or
+// max(<the phi>, load Node.H); or the corresponding result of a same-module helper that returns such a phi.
+func isNodeHMaxReduction(v ssa.Value, depth int) bool {
+	if depth > 3 {
+		return false
+	}
+	switch x := v.(type) {
+	case *ssa.Extract:
+		call, ok := x.Tuple.(*ssa.Call)
+		if !ok {
+			return false
+		}
+		c := call.Call.StaticCallee()
+		if c == nil || !inModule(c) || len(c.Blocks) == 0 {
+			return false
+		}
+		n, all := 0, true
+		eachInstr(c, func(in ssa.Instruction) {
+			if ret, ok := in.(*ssa.Return); ok && x.Index < len(ret.Results) {
+				n++
+				if !isNodeHMaxReduction(ret.Results[x.Index], depth+1) {
+					all = false
+				}
+			}
+		})
+		return n > 0 && all
+	case *ssa.Call:
+		c := x.Call.StaticCallee()
+		if c == nil || !inModule(c) || len(c.Blocks) == 0 || c.Signature.Results().Len() != 1 {
+			return false
+		}
+		n, all := 0, true
+		eachInstr(c, func(in ssa.Instruction) {
+			if ret, ok := in.(*ssa.Return); ok && len(ret.Results) == 1 {
+				n++
+				if !isNodeHMaxReduction(ret.Results[0], depth+1) {
+					all = false
+				}
+			}
+		})
+		return n > 0 && all
+	case *ssa.Phi:
+		hasMax := false
+		for _, e := range x.Edges {
+			switch y := e.(type) {
+			case *ssa.Const:
+			case *ssa.Phi:
+				if y != x && !isNodeHMaxReduction(y, depth+1) {
+					return false
+				}
+			case *ssa.Call:
+				b, ok := y.Call.Value.(*ssa.Builtin)
+				if !ok || b.Name() != "max" {
+					return false
+				}
+				hasPhi, hasNode := false, false
+				for _, a := range y.Call.Args {
+					if a == ssa.Value(x) {
+						hasPhi = true
+					}
+					if p2, ok := a.(*ssa.Phi); ok && p2 != x {
+						// the inner loop's phi of a nested reduction
+						for _, e2 := range p2.Edges {
+							if e2 == ssa.Value(x) {
+								hasPhi = true
+							}
+						}
+					}
+					if u, ok := a.(*ssa.UnOp); ok && u.Op == token.MUL {
+						if fa, ok := u.X.(*ssa.FieldAddr); ok {
+							_, st := fieldChain(fa)
+							if locOfSteps(st) == igNode+".H" {
+								hasNode = true
+							}
+						}
+					}
+				}
+				if !hasPhi || !hasNode {
+					return false
+				}
+				hasMax = true
+			default:
+				return false
+			}
+		}
+		return hasMax
+	}
+	return false
 }
 
 // noWriteBetween: two structurally equal loads denote the same value when they sit in one block with no store or call
